@@ -275,7 +275,7 @@ var rePanic = regexp.MustCompile(`(?m)^(panic:|fatal error:|goroutine \d+ \[)`)
 
 func checkC12(c *Ctx) error {
 	nMut := c.Pick(9000, 120000)
-	c.Rule = fmt.Sprintf("(1) %d seeded byte/token-level mutants of a corpus of valid and invalid configurations (flip, delete, duplicate, splice, snippet insertion incl. anchors/aliases/tags/merge keys/timestamps/huge numbers, indentation changes, long tokens) x random flag sets x 1-3 files and patterns x (a quarter of the runs) an extra directory entry the patterns also match (dangling link, link loop, directory, link to a directory or device, empty file, glob characters or 240 bytes in the name, the same file through a link), through the real binary under a watchdog; (2) schema-aware type confusions: every value position of a template configuration replaced by 20 node kinds, every position holding a Go reference by 45 import-path shapes (one segment, /vN suffixes, dots, dashes, reserved names; quoted and unquoted), every scalar position by 21 !!binary byte strings that are not valid UTF-8 (next to % tokens and argument sigils), plus non-scalar keys, merge keys, aliases across sections, 10 000-deep nesting, 1 MiB names; pairs of confusions of the same position as two merged input files; (3) thorough tier: native coverage-guided fuzzing of the build command in-process (go test -fuzz, iteration-bounded). Oracle: exit status in {0,1}, no panic/fatal error/goroutine dump on stderr, CLI contract (report consistent; failing run leaves -o untouched; success leaves a parsable file), run time under 1000x the normal time (a timeout only counts after it reproduces twice). distinct = distinct input bytes; non-trivial = input differs from every corpus entry", nMut)
+	c.Rule = fmt.Sprintf("(1) %d seeded byte/token-level mutants of a corpus of valid and invalid configurations (flip, delete, duplicate, splice, snippet insertion incl. anchors/aliases/tags/merge keys/timestamps/huge numbers, indentation changes, long tokens) x random flag sets x 1-3 files and patterns x (a quarter of the runs) an extra directory entry the patterns also match (dangling link, link loop, directory, link to a directory or device, empty file, glob characters or 240 bytes in the name, the same file through a link), through the real binary under a watchdog; (2) schema-aware type confusions: every value position of a template configuration replaced by 20 node kinds, every position holding a Go reference by 45 import-path shapes (one segment, /vN suffixes, dots, dashes, reserved names; quoted and unquoted), every scalar position by 21 !!binary byte strings that are not valid UTF-8 (next to % tokens and argument sigils), plus non-scalar keys, merge keys, aliases across sections, 10 000-deep nesting, 1 MiB names; pairs of confusions of the same position as two merged input files; 4-101 -i flags; (3) thorough tier: native coverage-guided fuzzing of the build command in-process (go test -fuzz, iteration-bounded). Oracle: exit status in {0,1}, no panic/fatal error/goroutine dump on stderr, CLI contract (report consistent; failing run leaves -o untouched; success leaves a parsable file), run time under 1000x the normal time (a timeout only counts after it reproduces twice). distinct = distinct input bytes; non-trivial = input differs from every corpus entry", nMut)
 	c.Assumptions = []string{"inputs whose reference structure would have very many elementary cycles are excluded by construction (mutants of sparse configurations; the fuzz target skips inputs with more than 40 reference markers)", "coverage-guided mutation is not seedable: crashers are saved as replay files"}
 	w := c.W
 	corpus := c12Corpus(c.Seed, c.Pick(120, 600))
@@ -330,6 +330,25 @@ func checkC12(c *Ctx) error {
 			continue
 		}
 		jobs = append(jobs, job{[]string{tc[i], tc[k]}, []string{"f0.yaml", "f1.yaml"}, flagSets[i%len(flagSets)], "type-confusion-pair", 0})
+	}
+	// how many -i flags there are is input too: 9, 10, 11, 16, 17, 99, 100, 101 patterns (files, wildcards, patterns matching
+	// nothing), with and without --quiet
+	for _, np := range []int{4, 9, 10, 11, 16, 17, 99, 100, 101} {
+		for variant := 0; variant < 3; variant++ {
+			var fs, pats []string
+			for k := 0; k < np; k++ {
+				switch {
+				case variant == 1 && k%3 == 1:
+					pats = append(pats, fmt.Sprintf("nothing-%d-*.yaml", k))
+				case variant == 2 && k > 0:
+					pats = append(pats, fmt.Sprintf("also-nothing/%d.yaml", k))
+				default:
+					fs = append(fs, fmt.Sprintf("parameters:\n  p%d: %d\n", k, k))
+					pats = append(pats, fmt.Sprintf("f%d.yaml", len(fs)-1))
+				}
+			}
+			jobs = append(jobs, job{fs, pats, flagSets[(np+variant)%len(flagSets)], "many-patterns", 0})
+		}
 	}
 	inCorpus := map[string]bool{}
 	for _, s := range corpus {
